@@ -98,6 +98,16 @@ def pattern_shape(tracks, lines):
     pat.raw_data = img
     if pat.raw_data != img:
         vs.append(C.viol("pattern-raw-data-setter", key, {}, case))
+    # histories on the SAME pattern object: a sparser image set over a denser one must replace it
+    ncell = tracks * lines
+    sparse = b"".join(img[8 * i:8 * i + 8] if i % 2 else bytes(8) for i in range(ncell))
+    module_only = b"".join(pack("<BBHHH", 0, 0, i + 1, 0, 0) for i in range(ncell))
+    for step, im in enumerate((sparse, bytes(8 * ncell), module_only, img, bytes(8 * ncell), sparse)):
+        pat.raw_data = im
+        if pat.raw_data != im:
+            vs.append(C.viol("pattern-raw-data-setter-history", dict(key, step=step), {}, case))
+            break
+    pat.raw_data = img
     k = 0
     for li in range(lines):
         for t in range(tracks):
